@@ -42,8 +42,13 @@ def make_cases(spec):
     for _ in range(spec["n"]):
         p = call_heavy(r)
         text = layouts.canonical(programs.to_lines(p, programs.Speller(r)))
-        cases.append({"mode": "run", "main": "main", "files": {"main": text},
-                      "opts": [("budget", spec["budget"]), ("program", 0)]})
+        opts = [("budget", spec["budget"]), ("program", 0)]
+        if r.random() < 0.5:
+            # reset() in the middle of the run (also while inside callees), then run on: the frames of the
+            # abandoned activations must be gone as well
+            pts = sorted(set(r.choice([3, 7, 12, 19, 33, 60, 110, 250, 700, 1500, 4000]) for _ in range(r.randint(1, 4))))
+            opts.append(("reset_at", " ".join(map(str, pts))))
+        cases.append({"mode": "run", "main": "main", "files": {"main": text}, "opts": opts})
     return cases
 
 
@@ -64,6 +69,7 @@ def judge(cases, outs, part):
         part["stats"]["boundaries-checked"] += r["boundaries"]
         part["stats"]["rets-observed"] += r["rets"]
         part["stats"]["calls-observed"] += r["calls"]
+        part["stats"]["mid-run-resets"] += r.get("resets", 0)
         part["stats"]["max-depth-seen"] = max(part["stats"]["max-depth-seen"], r["maxdepth"])
         part["stats"]["max-data-words-seen"] = max(part["stats"]["max-data-words-seen"], r["maxdata"])
         part["stats"]["halted" if r["done"] else "budget-exhausted"] += 1
